@@ -913,6 +913,16 @@ func tryAPI(src string) (where string, what interface{}) {
 		} else {
 			err = e.Prepare([]byte{NoOptimize})
 		}
+		if err != nil {
+			// whatever the script was, the evaluator can still be asked: each of these ends in an error, not a panic
+			where = fmt.Sprintf("Dump after a failed Prepare(optimize=%v)", optimize)
+			e.Dump()
+			obj, _, _ := racObject(5, 0)
+			where = fmt.Sprintf("Execute after a failed Prepare(optimize=%v)", optimize)
+			e.Execute(obj)
+			where = fmt.Sprintf("Run after a failed Prepare(optimize=%v)", optimize)
+			e.Run(obj)
+		}
 		if err == nil {
 			for _, shape := range []int{0, 2} {
 				obj, _, _ := racObject(5, shape)
